@@ -9,7 +9,13 @@ Transcription, function by function, of `asmif.c` (`ifsave_create`, `PushIF`, `C
 statement is only executed `if (IfAsm)`), and of the balance check of `as.c AssembleFile_ExitPass`.
 
 State: `IfAsm`, the `FirstIfSave` list of `(State, CaseFound, SaveIfAsm, SaveExpr, NestLevel)`,
-the emitted markers, the reported error numbers (`errmsg.h`), and `crashed` (NULL dereference).
+the events of the assembled lines (code bytes, symbol definitions, symbol references), the reported error
+numbers (`errmsg.h`), and `crashed` (NULL dereference).
+
+An ordinary line goes through `Produce_Code` in two steps that both look at `IfAsm`:
+"evtl. voranstehendes Label ablegen" – `if ((IfAsm) && ((!IsMacro) || (!OneMacro->LocIntLabel))) if (LabelPresent())
+LabelHandle(&LabPart, EProgCounter(), False);` (`labelPart`) – and the statement itself
+(`ExpandMacro` / `ExpandStruct` / `CodeGlobalPseudo` / `MakeCode`, only `if (IfAsm)`; `Leaf.exec`).
 
 Three behaviours are parameters (`Cfg`) because the pinned tree deviates from the manual there and the
 check calibrates them by probing the real binary: how far `CodeIFB` advances its argument index per
@@ -49,11 +55,52 @@ structure Cfg where
   deadSwitchWarns : Bool := true
 deriving Repr
 
+/-- what an assembled line leaves behind -/
+inductive Ev where
+  /-- a code byte -/
+  | code (b : Nat)
+  /-- `EnterIntSymbol…` of a globally visible symbol -/
+  | define (s : Nat)
+  /-- a symbol was referenced (its "used" flag set) -/
+  | use (s : Nat)
+deriving DecidableEq, Repr
+
+/-- `LabPart` is non-empty and `LabelPresent()` (asmlabel.c) holds: not for `EQU`/`=`/`SET`/`:=`, which consume
+the label field themselves -/
+def Leaf.labelPresent (l : Leaf) : Bool :=
+  match l.kind with
+  | .plain | .use | .equ | .set => false
+  | _ => true
+
+/-- `FoundMacro(&OneMacro)` -/
+def Leaf.isMacro (l : Leaf) : Bool :=
+  match l.kind with
+  | .macro | .macroInt | .macroIntGlobal | .macroIntLocal => true
+  | _ => false
+
+/-- `OneMacro->LocIntLabel` -/
+def Leaf.intLabel (l : Leaf) : Bool :=
+  match l.kind with
+  | .macroInt | .macroIntGlobal | .macroIntLocal => true
+  | _ => false
+
+/-- the statement of a live line: `ExpandMacro` (the body runs: `db m`, with `__LABEL__:` in front for the
+INTLABEL bodies – globally visible only with GLOBALSYMBOLS), `ExpandStruct` (element symbol; space is reserved,
+no byte), `CodeGlobalPseudo` (`EQU`/`SET` enter the symbol, `DB` evaluates its argument), `MakeCode` (`CP m`) -/
+def Leaf.exec (l : Leaf) : List Ev :=
+  match l.kind with
+  | .instr => [.code 254, .code l.marker]
+  | .struct => [.define (elemSym l.sym)]
+  | .equ | .set => [.define l.sym]
+  | .macroIntGlobal => [.define l.sym, .code l.marker]
+  | .use => [.use l.sym, .code l.marker]
+  | .plain | .pseudo | .macro | .macroInt | .macroIntLocal => [.code l.marker]
+
 structure M where
   ifAsm : Bool := true
   stack : List Frame := []
-  /-- markers of the assembled leaves, newest first -/
-  out : List Nat := []
+  /-- events of the assembled leaves, newest first -/
+  out : List Ev := []
   /-- reported error/warning numbers, newest first -/
   errs : List Nat := []
   crashed : Bool := false
@@ -179,11 +226,17 @@ def codeENDCASE (cfg : Cfg) (m : M) (argc : Nat) : M :=
       else if f.caseFound || (!cfg.deadSwitchWarns && !f.saveIfAsm) then { m with ifAsm := f.saveIfAsm, stack := rest }
       else { m with ifAsm := f.saveIfAsm, errs := errNoCaseHit :: m.errs, stack := rest }
 
-/-- one source line through `Produce_Code`: `CodeIFs()` first, everything else only `if (IfAsm)` -/
+/-- `Produce_Code`, "evtl. voranstehendes Label ablegen" -/
+def labelPart (m : M) (l : Leaf) : M :=
+  if m.ifAsm && (!l.isMacro || !l.intLabel) then
+    (if l.labelPresent then { m with out := .define l.sym :: m.out } else m)
+  else m
+
+/-- one source line through `Produce_Code`: the label in front, then `CodeIFs()`, everything else only `if (IfAsm)` -/
 def step (cfg : Cfg) (m : M) (s : Stmt) : M :=
   if m.crashed then m else
   match s with
-  | .leaf k => if m.ifAsm then { m with out := k :: m.out } else m
+  | .leaf l => if (labelPart m l).ifAsm then { labelPart m l with out := l.exec.reverse ++ (labelPart m l).out } else labelPart m l
   | .iff argc c => codeIF cfg m argc c
   | .elseif argc c => codeELSEIF m argc c
   | .endif argc => codeENDIF m argc
@@ -213,5 +266,18 @@ where go : List Frame → Bool → M
 
 /-- what the check observes of a finished pass -/
 def hardErrs (m : M) : List Nat := m.errs.filter (· ≥ 1000)
+
+def Ev.code? : Ev → Option Nat | .code b => some b | _ => none
+def Ev.define? : Ev → Option Nat | .define s => some s | _ => none
+def Ev.use? : Ev → Option Nat | .use s => some s | _ => none
+
+/-- the code bytes, oldest first -/
+def M.codes (m : M) : List Nat := m.out.reverse.filterMap Ev.code?
+
+/-- the symbols entered into the symbol table, oldest first -/
+def M.defs (m : M) : List Nat := m.out.reverse.filterMap Ev.define?
+
+/-- the symbols referenced, oldest first -/
+def M.uses (m : M) : List Nat := m.out.reverse.filterMap Ev.use?
 
 end AslModel.Cond
